@@ -113,6 +113,36 @@ def word_sweep(ctx, v, alphabet, maxlen, stream):
     return found
 
 
+def op_words_all_versions(ctx, maxlen):
+    """operator words against the tokenizer of EVERY reference interpreter (the property's domain is what the reference tokenizes without
+    error, whether or not it compiles it): `:=` is two tokens for 3.6 / 3.7 and one from 3.8 on, `!` an operator only from 3.12 on, ...
+    Words with a backtick (no Python 3 operator; CPython >= 3.12 reports stray characters as OP) and `<>` (barry_as_FLUFL) are left out."""
+    import itertools
+    from parso.python.token import PythonTokenTypes as T
+    words = [''.join(t) for n in range(1, maxlen + 1) for t in itertools.product(OP_ALPHABET.replace('`', ''), repeat=n)]
+    words = [w for w in words if '<>' not in w]
+    skip = (T.NEWLINE, T.ENDMARKER, T.INDENT, T.DEDENT, T.ERROR_DEDENT)
+    for v in streams.versions():
+        refs = refpy.run_ref('ref_words.py', v, words)
+        vi = parse_version_string(v)
+        found = 0
+        for w, ref in zip(words, refs):
+            if ref is None or any(n != 'OP' for n, _ in ref):
+                continue
+            ctx.count('operator-words-all-versions')
+            try:
+                toks = [t for t in tokenize(w + '\n', version_info=vi) if t.type not in skip]
+                mine = [(t.type.name, t.string) for t in toks]
+            except Exception as e:
+                mine = [('EXC', preds.crash_sig(e))]
+            if mine != [('OP', s_) for _, s_ in ref]:
+                ctx.violation('C10:token-word-differs:operator', dict(kind='input', version=v, input_text=w + '\n', word=w,
+                                                                      cpython=[s_ for _, s_ in ref], parso=mine))
+                found += 1
+                if found >= 3:
+                    break
+
+
 def recheck(replay, text):
     """re-evaluate the comparison on a modified text (used by known-finding attribution)"""
     v = replay['version']
@@ -132,6 +162,7 @@ def run(ctx, b, drv):
     deep = (not allok) or ctx.tier == 'thorough'
     word_sweep(ctx, gv, NUM_ALPHABET, 4 if deep else 3, 'number-words')
     word_sweep(ctx, gv, OP_ALPHABET, 3 if deep else 2, 'operator-words')
+    op_words_all_versions(ctx, 3 if deep else 2)
     base.mismatches(ctx, pend, streams.run_tok(ctx, base.scale(ctx, 1500), drv), None)
     base.mismatches(ctx, pend, streams.run_re(ctx, base.scale(ctx, 3000), drv), None)
     nfiles = 12 if ctx.tier == 'quick' else 120
